@@ -30,6 +30,7 @@ type Env struct {
 }
 
 type anchorProbe struct {
+	outer  *anchorProbe      // probe of the enclosing quantifier (while that one is in its probing pass)
 	vars   map[string]string // bound variable name -> SMT symbol
 	found  map[string]*SIndex
 	foundC map[string]*SCall
@@ -179,19 +180,21 @@ func (e *Env) Eval(x SExpr) Val {
 		case *types.Map:
 			k := e.coerce(e.Eval(n.I), u.Key())
 			mv := e.hp().mapGet(e.cur, xv, k.S)
-			e.x.noteLoaded(e.cur, mv)
+			e.x.noteLoadedFrom(e.cur, mv, xv.S)
 			return mv
 		case *types.Slice:
 			if abs, ok := e.anchors[n]; ok {
 				p := Val{T: types.NewPointer(u.Elem()), S: xv.Fs[0].S, P: &Ptr{Kind: ptrElem, Root: u.Elem(), Idx: abs}}
-				return e.hp().load(e.cur, p, u.Elem())
+				av := e.hp().load(e.cur, p, u.Elem())
+				e.x.noteLoadedFrom(e.cur, av, xv.Fs[0].S)
+				return av
 			}
 			if e.probe != nil {
 				e.probeAnchor(n, xv)
 			}
 			i := e.coerce(e.Eval(n.I), intT)
 			ev := e.hp().load(e.cur, e.hp().elemPtr(xv, i.S), u.Elem())
-			e.x.noteLoaded(e.cur, ev)
+			e.x.noteLoadedFrom(e.cur, ev, xv.Fs[0].S)
 			return ev
 		case *types.Basic:
 			if isString(xv.T) {
@@ -414,7 +417,7 @@ func (e *Env) selField(xv Val, name string) Val {
 		}
 		fp := e.x.fieldAddrPath(xv, p.Elem(), path)
 		lv := e.hp().load(e.cur, fp, ft)
-		e.x.noteLoaded(e.cur, lv)
+		e.x.noteLoadedFrom(e.cur, lv, xv.S)
 		return lv
 	}
 	if st, ok := under(xv.T).(*types.Struct); ok {
@@ -917,14 +920,16 @@ func (e *Env) evalQuant(n *SQuant) Val {
 		e.vc().Bound = e.vc().Bound[:len(e.vc().Bound)-len(vars)]
 	}()
 	// pass 1: probe for anchors
-	probe := &anchorProbe{vars: map[string]string{}, found: map[string]*SIndex{}, foundC: map[string]*SCall{}, shift: map[string]string{}}
+	probe := &anchorProbe{outer: e.probe, vars: map[string]string{}, found: map[string]*SIndex{}, foundC: map[string]*SCall{}, shift: map[string]string{}}
 	for _, v := range vars {
 		if isInteger(v.t) && !e.vc().BV {
 			probe.vars[v.name] = v.symb
 		}
 	}
+	qp0 := len(e.x.qpending)
 	body, guards := bind(nil, nil, probe)
 	if len(probe.found) > 0 || len(probe.foundC) > 0 {
+		e.x.qpending = e.x.qpending[:qp0]
 		anchors := map[*SIndex]string{}
 		for name, node := range probe.found {
 			anchors[node] = probe.vars[name]
@@ -939,6 +944,32 @@ func (e *Env) evalQuant(n *SQuant) Val {
 	for _, v := range vars {
 		binders = append(binders, "("+v.symb+" "+e.vc().sortOf(v.t)+")")
 	}
+	// type facts of the loads made under this quantifier: close those that mention only its
+	// variables, pass the others on to the enclosing quantifier
+	if len(e.x.qpending) > qp0 {
+		mine := append([]string{}, e.x.qpending[qp0:]...)
+		e.x.qpending = e.x.qpending[:qp0]
+		outer := e.x.qsyms[:len(e.x.qsyms)-len(vars)]
+		seen := map[string]bool{}
+		for _, fct := range mine {
+			if seen[fct] {
+				continue
+			}
+			seen[fct] = true
+			closed := "(forall (" + strings.Join(binders, " ") + ") " + Implies(And(guards...), fct) + ")"
+			isOuter := false
+			for _, o := range outer {
+				if strings.Contains(closed, o) {
+					isOuter = true
+				}
+			}
+			if isOuter {
+				e.x.qpending = append(e.x.qpending, closed)
+			} else {
+				e.x.addPending(closed)
+			}
+		}
+	}
 	q := "forall"
 	if !n.Forall {
 		q = "exists"
@@ -951,7 +982,12 @@ func (e *Env) evalQuant(n *SQuant) Val {
 
 // probeAnchor records s[i] / s[i+e] / s[e+i] / s[i-e] (i bound, e free of bound variables).
 func (e *Env) probeAnchor(n *SIndex, xv Val) {
-	pr := e.probe
+	for pr := e.probe; pr != nil; pr = pr.outer {
+		e.probeAnchor1(pr, n, xv)
+	}
+}
+
+func (e *Env) probeAnchor1(pr *anchorProbe, n *SIndex, xv Val) {
 	var vname string
 	var extra SExpr
 	neg := false
@@ -1010,7 +1046,12 @@ func (e *Env) probeAnchor(n *SIndex, xv Val) {
 
 // probeAnchorCall: callarg/callret(cls, e + i, j) with i bound: re-express over k = e + i.
 func (e *Env) probeAnchorCall(n *SCall) {
-	pr := e.probe
+	for pr := e.probe; pr != nil; pr = pr.outer {
+		e.probeAnchorCall1(pr, n)
+	}
+}
+
+func (e *Env) probeAnchorCall1(pr *anchorProbe, n *SCall) {
 	ix, ok := n.Args[1].(*SBinary)
 	if !ok || ix.Op != "+" {
 		return
